@@ -114,7 +114,7 @@ func variants(t *rapid.T, v reflect.Value) interface{} {
 		}
 		return v.Interface()
 	}
-	choice := rapid.IntRange(0, 4).Draw(t, "variant")
+	choice := rapid.IntRange(0, 5).Draw(t, "variant")
 	switch v.Kind() {
 	case reflect.Int8, reflect.Int16, reflect.Int32, reflect.Int64, reflect.Int:
 		x := v.Int()
@@ -131,6 +131,14 @@ func variants(t *rapid.T, v reflect.Value) interface{} {
 			p := reflect.New(v.Type())
 			p.Elem().Set(v)
 			return p.Interface()
+		case 5:
+			// a pointer to an integer of another width
+			if v.Kind() != reflect.Int {
+				p := int(x)
+				return &p
+			}
+			p := x
+			return &p
 		}
 	case reflect.Uint8, reflect.Uint16, reflect.Uint32, reflect.Uint64:
 		x := v.Uint()
@@ -145,6 +153,11 @@ func variants(t *rapid.T, v reflect.Value) interface{} {
 			p := reflect.New(v.Type())
 			p.Elem().Set(v)
 			return p.Interface()
+		case 5:
+			if x <= 1<<62 {
+				p := int64(x)
+				return &p
+			}
 		}
 	case reflect.String:
 		switch choice {
@@ -170,7 +183,7 @@ func variants(t *rapid.T, v reflect.Value) interface{} {
 }
 
 var filterCols = map[string][]string{
-	"row_a": {"id", "shard", "i8", "i16", "i32", "i", "u8", "u16", "u32", "u64", "b", "s", "n", "ni", "by", "t"},
+	"row_a": {"id", "shard", "i8", "i16", "i32", "i", "u8", "u16", "u32", "u64", "b", "s", "n", "ni", "by", "t", "MixedCol"},
 	"row_b": {"id", "shard", "p_i", "p_i32", "p_u16", "p_b", "p_s", "p_n", "p_t", "by"},
 	"row_c": {"key", "shard", "tx", "p_tx", "bin", "i_n_s", "ini", "i_n_b", "sc", "p_sc", "bin_o", "j_mar"},
 }
